@@ -168,15 +168,23 @@ pub fn run(h: &Hist) -> RunOut {
     out
 }
 
-fn gv(r: &mut Rng, dim: usize) -> Vec<f32> {
-    (0..dim).map(|_| (r.range(0, 14) as f32 - 7.0) / 8.0).collect()
+fn gv(r: &mut Rng, dim: usize, scale: f32) -> Vec<f32> {
+    (0..dim).map(|_| (r.range(0, 14) as f32 - 7.0) * scale / 8.0).collect()
 }
 
 pub fn gen(r: &mut Rng) -> Hist {
     let dim = r.range(2, 3) as usize;
     let cap = *r.pick(&[1usize, 2, 4, 4]);
-    let queries: Vec<Vec<f32>> = (0..r.range(2, 4)).map(|_| gv(r, dim)).collect();
-    let vecs: Vec<Vec<f32>> = (0..r.range(4, 8)).map(|_| gv(r, dim)).collect();
+    // scale 8: components up to 7 (outside the unit box, where the old key saturated)
+    let scale = *r.pick(&[1.0f32, 8.0, 8.0]);
+    let mut queries: Vec<Vec<f32>> = (0..r.range(2, 4)).map(|_| gv(r, dim, scale)).collect();
+    let mut vecs: Vec<Vec<f32>> = (0..r.range(4, 8)).map(|_| gv(r, dim, scale)).collect();
+    if dim == 2 && scale > 1.0 && r.chance(1, 2) {
+        queries.push(vec![5.0, 3.0]);
+        queries.push(vec![2.0, 7.0]);
+        vecs.push(vec![5.0, 3.0]);
+        vecs.push(vec![2.0, 7.0]);
+    }
     let n = r.range(15, 60) as usize;
     let mut ops = vec![];
     for _ in 0..n {
@@ -283,8 +291,9 @@ pub fn replay(v: &Value) -> Value {
            "cache_hits": o.hits, "searches": o.searches})
 }
 
-/// Engine-level form of the saturation probe: Euclidean metric (queries are not normalised), two
-/// documents outside the unit box; the second search is answered from the first one's entry.
+/// Engine-level form of the regression probe for C07-quantised-key-saturation: Euclidean metric
+/// (queries are not normalised), two documents outside the unit box; before /repo 6ba2bfe the second
+/// search was answered from the first one's entry.  Expected now: no oracle failure.
 pub fn saturation_probe_engine() -> Value {
     let h = Hist {
         dim: 2,
